@@ -775,6 +775,9 @@ func (s *sess) pending() []pend {
 		for _, x := range pfxs {
 			e.pfxs = append(e.pfxs, aro.PfxID(x))
 		}
+		// the order in which prefixes joined an entry follows the caller's iteration order (trie order in
+		// AdjRIBIn.Unregister): a set
+		sort.Ints(e.pfxs)
 		out = append(out, e)
 	}
 	sort.Slice(out, func(i, j int) bool {
@@ -864,6 +867,7 @@ func (w *world) collect(s *sess) {
 				s.peer[fmt.Sprintf("%d/%d", pfxOfWire(n.P), n.PID)] = a
 				ps = append(ps, strconv.Itoa(pfxOfWire(n.P)))
 			}
+			sort.Strings(ps) // NLRI order within one UPDATE = queueing order, see pending()
 			s.wire = append(s.wire, fmt.Sprintf("A%d!%s!%s", pid, strings.Join(ps, "."), a))
 		}
 	}
@@ -1211,6 +1215,10 @@ func runCase(c tcase) (obs string, v *verdict, nt bool, stats map[string]int) {
 		}
 		for _, x := range w.ss {
 			w.collect(x)
+		}
+		if e.kind == 'U' {
+			// EndOfRIB flushes the queue in Go map order: the messages of the registration are a multiset
+			sort.Strings(s.wire)
 		}
 		so := make([]string, len(w.ss))
 		for j, x := range w.ss {
